@@ -1,5 +1,6 @@
 import json, os, shutil, subprocess, sys, time, argparse
 from . import build, core, props
+props.load_plans()
 
 
 def do_replay(path):
